@@ -713,8 +713,17 @@ bool SPxLPBase<Rational>::readLPF(
                   {
                      char name[16];
                      spxSnprintf(name, 16, "C%d", rset.num());
+
+                     // the generated name may have been used in the file for another row
+                     for(int n = rset.num() + 1; rnames->has(name); n++)
+                        spxSnprintf(name, 16, "C%d", n);
+
                      rnames->add(name);
                   }
+
+                  // a name used twice or a named row that was never completed leaves names and rows out of step
+                  if(rnames->num() != rset.num())
+                     goto syntax_error;
 
                   have_value = true;
                   val = 1;
@@ -906,6 +915,13 @@ bool SPxLPBase<Rational>::readLPF(
          if(pos == pos_old)
             goto syntax_error;
       }
+   }
+
+   // the last row had a name, but was not completed before the section ended
+   if(rnames->num() != rset.num())
+   {
+      finished = false;
+      goto syntax_error;
    }
 
    assert(isConsistent());
